@@ -274,7 +274,7 @@ Proof.
     split; [auto|]. split; [eapply mono_trans; eauto|].
     intros ->. constructor; auto.
     assert (stored = lim) as -> by (destruct (O1 eq_refl); lia).
-    simpl. eapply rule_ok_mono; [exact M2|]. eapply witness_rule_ok; eauto. apply mono_refl.
+    simpl. eapply rule_ok_mono; [exact M2|]. exact (witness_rule_ok p1 p1 nodes lim lim G1 (mono_refl p1) W1).
   - inversion H; subst. split; [auto|]. split; [auto|].
     intros Hx. destruct (Nat.ltb 0 stored); discriminate.
 Qed.
@@ -300,7 +300,7 @@ Proof.
   destruct (handle_rep_rule ack p nodes (left - sum_limits rest) (Nat.min lim left)) as [[p1 stored] ok] eqn:Hh.
   destruct (handle_rep_rule_spec _ _ _ _ _ _ _ Hh Hn1 Hg) as (G1 & M1 & W1 & L1 & O1).
   assert (within p1 (nodes, lim) stored) as Hw1.
-  { split; [simpl; lia|]. eapply witness_rule_ok; eauto. apply mono_refl. }
+  { split; [simpl; lia|]. exact (witness_rule_ok p1 p1 nodes lim stored G1 (mono_refl p1) W1). }
   destruct ok; simpl in H.
   - destruct (Nat.leb left stored) eqn:El.
     + inversion H; subst. apply Nat.leb_le in El. split; [auto|]. split; [auto|].
